@@ -30,6 +30,33 @@ JS_METHOD = {'concat': 'concat', 'concats': 'concats', 'contains': 'contains', '
 SYM_OF_TEXT = {v[1]: k for k, v in BINOPS.items()}
 SYM_OF_TEXT['start'] = 'start'       # the decompiler spells the operator 'start'
 
+# Director's numbering of the built-in properties (pinned reference copy; the implementation has its own tables)
+SPRITE_PROPS = ['UNKNOWN0', 'type', 'backColor', 'bottom', 'castNum', 'constraint', 'cursor', 'foreColor', 'height', 'immediate',
+                'ink', 'left', 'lineSize', 'locH', 'locV', 'movieRate', 'movieTime', 'pattern', 'puppet', 'right', 'startTime',
+                'stopTime', 'stretch', 'top', 'trails', 'visible', 'volume', 'width', 'blend', 'scriptNum', 'moveableSprite',
+                'editabletext', 'scoreColor', 'loc', 'rect']
+CAST_PROPS = ['UNKNOWN0', 'name', 'text', 'textStyle', 'textFont', 'textHeight', 'textAlign', 'textSize', 'picture', 'hilite',
+              'number', 'size', 'UNKNOWN8', 'UNKNOWN9', 'UNKNOWNA', 'UNKNOWNB', 'UNKNOWNC', 'foreColor', 'backColor']
+SOUND_PROPS = ['UNKNOWN0', 'volume']
+MENUITEM_PROPS = ['UNKNOWN0', 'name', 'checkMark', 'enabled', 'script']
+SPECIAL_PROPS = ['floatPrecision', 'mouseDownScript', 'mouseUpScript', 'keyDownScript', 'keyUpScript', 'timeoutScript']
+DATE_TIME = ['short time', 'abbr time', 'long time', 'short date', 'abbr date', 'long date']
+CHUNK_TYPES = ['UNKNOWN', 'char', 'word', 'item', 'line']
+NUM_OF = ['UNKNOWN0', 'perFrameHook', 'castMembers', 'menus']
+SYSTEM_PROPS = {1: ('beepOn', '_movie'), 2: ('buttonStyle', '_movie'), 3: ('centerStage', '_movie'), 4: ('checkBoxAccess', '_system'),
+                5: ('checkBoxType', '_system'), 6: ('colorDepth', '_system'), 8: ('exitLock', '_movie'), 9: ('fixStageSize', '_movie'),
+                10: ('fullColorPermit', '_system'), 11: ('imageDirect', '_system'), 19: ('timeoutLapsed', '_system'),
+                23: ('selEnd', '_movie'), 24: ('selStart', '_movie'), 25: ('soundEnabled', '_sound'), 26: ('soundLevel', '_sound'),
+                27: ('stageColor', '_movie'), 29: ('switchColorDepth', '_player'), 30: ('timeoutKeyDown', '_system'),
+                31: ('timeoutLength', '_system'), 32: ('timeoutMouse', '_system'), 33: ('timeoutPlay', '_system'), 34: ('timer', '_system')}
+SYS_INDEX = {v[0]: k for k, v in SYSTEM_PROPS.items()}
+OBJ_KINDS = {'sprite': (0x06, SPRITE_PROPS), 'cast': (0x09, CAST_PROPS), 'sound': (0x04, SOUND_PROPS), 'field': (0x0b, CAST_PROPS)}
+# JavaScript objects the translator attaches by-name properties to
+JS_PROP_OWNER = {'actorList': '_movie', 'ancestor': 'me', 'floatPrecision': '_system', 'mouseDownScript': '_system',
+                 'mouseUpScript': '_system', 'keyDownScript': '_system', 'keyUpScript': '_system', 'timeoutScript': '_system',
+                 'itemDelimiter': '_player', 'movieName': '_movie', 'moviePath': '_movie', 'romanLingo': '_system',
+                 'cpuHogTicks': '_system', 'traceLoad': '_system', 'traceLogFile': '_system'}
+
 class SpecError(Exception):
     pass
 
@@ -108,7 +135,76 @@ def comp_e(e, cx):
         for kk, vv in e[1]:
             flat += [kk, vv]
         return arglist(flat, cx, True) + b'\x1f'
+    if k == 'the':
+        return bytes([0x5F, cx.n(e[1])])
+    if k == 'objprop':
+        code2, table = OBJ_KINDS[e[1]]
+        return comp_e(e[2], cx) + comp_int(table.index(e[3]), cx.pool) + bytes([0x5C, code2])
+    if k == 'menuprop':
+        return comp_e(e[2], cx) + comp_e(e[3], cx) + comp_int(MENUITEM_PROPS.index(e[1]), cx.pool) + b'\x5c\x03'
+    if k == 'menuname':
+        return comp_e(e[1], cx) + comp_int(1, cx.pool) + b'\x5c\x02'
+    if k == 'menuitems':
+        return comp_e(e[1], cx) + comp_int(2, cx.pool) + b'\x5c\x02'
+    if k == 'numberof':
+        return comp_int(NUM_OF.index(e[1]), cx.pool) + b'\x5c\x08'
+    if k == 'sysprop':
+        return comp_int(SYS_INDEX[e[1]], cx.pool) + b'\x5c\x07'
+    if k == 'special':
+        return comp_int(SPECIAL_PROPS.index(e[1]), cx.pool) + b'\x5c\x00'
+    if k == 'datetime':
+        return comp_int(6 + DATE_TIME.index(e[1]), cx.pool) + b'\x5c\x00'
+    if k == 'keyprop':
+        return bytes([0x43, 0x00, 0x66, cx.n(e[1])])
+    if k == 'lastchunk':
+        return comp_e(e[2], cx) + comp_int(11 + CHUNK_TYPES.index(e[1]), cx.pool) + b'\x5c\x00'
+    if k == 'numchunks':
+        return comp_e(e[2], cx) + comp_int(CHUNK_TYPES.index(e[1]), cx.pool) + b'\x5c\x01'
+    if k == 'chunk':
+        return chunk_mods(e[1], cx) + comp_e(e[2], cx) + b'\x17'
+    if k == 'field':
+        return comp_e(e[1], cx) + b'\x1b'
+    if k == 'accessor':
+        return comp_e(e[1], cx) + bytes([0x61, cx.n(e[2])])
+    if k == 'mcall':
+        return mcall_code(e, cx, True)
     raise SpecError('expr kind %r' % (k,))
+
+def chunk_mods(mods, cx):
+    """the eight range operands: first/last char, word, item, line (0 = absent)"""
+    d = {t: (a, b) for t, a, b in mods}
+    code = b''
+    for t in ('char', 'word', 'item', 'line'):
+        a, b = d.get(t, (None, None))
+        code += comp_e(a, cx) if a is not None else b'\x03'
+        code += comp_e(b, cx) if b is not None else b'\x03'
+    return code
+
+def mcall_code(e, cx, expr_pos):
+    """object call  obj(mMethod, args) / me mMethod, args : the method symbol is the first list element"""
+    obj, meth, args = e[1], e[2], e[3]
+    code = bytes([0x45, cx.n(meth)]) + b''.join(comp_e(a, cx) for a in args)
+    n = len(args) + 1
+    code += bytes([0x43 if expr_pos else 0x42, n])
+    if obj[0] == 'me':
+        return code + bytes([0x46, cx.n('me'), 0x58, 0x03])
+    if obj[0] == 'loc':
+        return code + comp_int(cx.h['locals'].index(obj[1]) * cx.width, cx.pool) + bytes([0x58, 0x05])
+    if obj[0] == 'par':
+        return code + comp_int(cx.h['args'].index(obj[1]) * cx.width, cx.pool) + bytes([0x58, 0x04])
+    raise SpecError('object reference %r' % (obj,))
+
+def target_ref(t, cx):
+    """(operand code, variable-type nibble) of a put/delete target"""
+    if t[0] == 'loc':
+        return comp_int(cx.h['locals'].index(t[1]) * cx.width, cx.pool), 5
+    if t[0] == 'field':
+        return comp_e(t[1], cx), 6
+    if t[0] == 'glob':
+        return bytes([0x46, cx.n(t[1])]), 2
+    raise SpecError('put target %r' % (t,))
+
+PUT_MODE = {'into': 1, 'after': 2, 'before': 3}
 
 def store(target, cx):
     k = target[0]
@@ -160,6 +256,58 @@ def comp_s(st, cx):
         return arglist(st[2], cx, False) + bytes([0x57, cx.n(st[1])]), []
     if k == 'lcall':
         return arglist(st[2], cx, False) + bytes([0x56, cx.lf.index(st[1])]), []
+    if k == 'setthe':
+        return comp_e(st[2], cx) + bytes([0x60, cx.n(st[1])]), []
+    if k == 'setobjprop':
+        code2, table = OBJ_KINDS[st[1]]
+        return comp_e(st[2], cx) + comp_e(st[4], cx) + comp_int(table.index(st[3]), cx.pool) + bytes([0x5D, code2]), []
+    if k == 'setmenuprop':
+        return (comp_e(st[2], cx) + comp_e(st[3], cx) + comp_e(st[4], cx) + comp_int(MENUITEM_PROPS.index(st[1]), cx.pool)
+                + b'\x5d\x03'), []
+    if k == 'setsys':
+        return comp_e(st[2], cx) + comp_int(SYS_INDEX[st[1]], cx.pool) + b'\x5d\x07', []
+    if k == 'setspecial':
+        return comp_e(st[2], cx) + comp_int(SPECIAL_PROPS.index(st[1]), cx.pool) + b'\x5d\x00', []
+    if k == 'setaccessor':
+        return comp_e(st[1], cx) + comp_e(st[3], cx) + bytes([0x62, cx.n(st[2])]), []
+    if k == 'put':
+        mode, v, t = st[1], st[2], st[3]
+        if t[0] == 'chunk':
+            ref, vt = target_ref(t[2], cx)
+            return comp_e(v, cx) + chunk_mods(t[1], cx) + ref + bytes([0x5A, PUT_MODE[mode] * 16 + vt]), []
+        ref, vt = target_ref(t, cx)
+        if vt == 2:
+            raise SpecError('put into a global goes through set')
+        return comp_e(v, cx) + ref + bytes([0x59, PUT_MODE[mode] * 16 + vt]), []
+    if k == 'delete':
+        t = st[1]
+        ref, vt = target_ref(t[2], cx)
+        return chunk_mods(t[1], cx) + ref + bytes([0x5B, vt]), []
+    if k == 'hilite':
+        t = st[1]
+        return chunk_mods(t[1], cx) + comp_e(t[2][1], cx) + b'\x18', []
+    if k == 'mcall':
+        return mcall_code(st, cx, False), []
+    if k == 'tell':
+        code = comp_e(st[1], cx) + b'\x1c'
+        for inner in st[2]:
+            if inner[0] == 'call':
+                code += arglist(inner[2], cx, False) + bytes([0x63, cx.n(inner[1])])
+            else:
+                c, ex = comp_s(inner, cx)
+                if ex:
+                    raise SpecError('exit repeat inside tell')
+                code += c
+        return code + b'\x1d', []
+    if k == 'in':
+        v = ('loc', st[1])
+        head = comp_e(st[2], cx) + bytes([0x64, 0x00, 0x43, 0x01, 0x57, cx.n('count')]) + comp_int(1, cx.pool)
+        c = bytes([0x64, 0x00, 0x64, 0x02, 0x0D])
+        A, ex = comp_body(st[3], cx)
+        first = bytes([0x64, 0x02, 0x64, 0x01, 0x43, 0x02, 0x57, cx.n('getAt')]) + store(v, cx)
+        inc = comp_int(1, cx.pool) + b'\x05'
+        loop = close_loop(c, first + A, inc, [p + len(first) for p in ex])
+        return head + loop + bytes([0x65, 0x03]), []
     if k == 'exit_repeat':
         return jmp(0), [0]
     if k == 'if':
@@ -377,6 +525,16 @@ class Parser:
             name = x[1]
             if name in NAMED_STR:
                 return ('str', NAMED_STR[name])
+            if name == 'the':
+                return self.the_form()
+            if name in CHUNK_TYPES[1:]:
+                return self.chunk_form(name)
+            if name == 'field':
+                return ('field', self.unary())
+            if name == 'me' and self.peek() == ('op', '('):
+                self.next()
+                args = self.args_until(')')
+                return ('mcall', ('me',), meth_name(args[0]), args[1:])
             if name == 'sprite':
                 a = self.unary()
                 y = self.next()
@@ -389,6 +547,66 @@ class Parser:
                 return ('lcall' if name in self.scope['lfuncs'] else 'call', name, args)
             return self.variable(name)
         raise SpecError('unexpected token %r' % (x,))
+    def objid(self):
+        """operand of sprite / cast / sound / menu / menuItem: a unary-level expression"""
+        return self.unary()
+    def the_form(self):
+        x = self.next()
+        if x[0] != 'id':
+            raise SpecError('the %r' % (x,))
+        name = x[1]
+        if name in ('short', 'abbr', 'long') and self.peek()[0] == 'id' and self.peek()[1] in ('time', 'date'):
+            return ('datetime', name + ' ' + self.next()[1])
+        if name == 'last' and self.peek()[0] == 'id' and self.peek()[1] in CHUNK_TYPES[1:]:
+            t = self.next()[1]
+            self.expect('id', 'of')
+            return ('lastchunk', t, self.chunk_base())
+        if self.peek() != ('id', 'of'):
+            if name in SYS_INDEX:
+                return ('sysprop', name)
+            if name in SPECIAL_PROPS:
+                return ('special', name)
+            if name in self.scope.get('keyprops', ()):
+                return ('keyprop', name)
+            return ('the', name)
+        self.next()       # of
+        y = self.peek()
+        if name == 'number' and y[0] == 'id' and y[1].endswith('s') and y[1][:-1] in CHUNK_TYPES[1:] and self.peek(1) == ('id', 'of'):
+            self.next(); self.next()
+            return ('numchunks', y[1][:-1], self.chunk_base())
+        if name == 'number' and y == ('id', 'menuItems'):
+            self.next(); self.expect('id', 'of'); self.expect('id', 'menu')
+            return ('menuitems', self.objid())
+        if name == 'number' and y[0] == 'id' and y[1] in NUM_OF[2:]:
+            self.next()
+            return ('numberof', y[1])
+        if y == ('id', 'menuItem'):
+            self.next()
+            item = self.objid()
+            self.expect('id', 'of'); self.expect('id', 'menu')
+            return ('menuprop', name, item, self.objid())
+        if y == ('id', 'menu') and name == 'name':
+            self.next()
+            return ('menuname', self.objid())
+        if y[0] == 'id' and y[1] in OBJ_KINDS and self.peek(1) != ('op', '('):
+            self.next()
+            return ('objprop', y[1], self.objid(), name)
+        return ('accessor', self.chunk_base(), name)
+    def chunk_base(self):
+        """what follows 'of' in a chunk / property expression: a unary-level expression (which may be another chunk)"""
+        return self.unary()
+    def chunk_form(self, t):
+        a = self.unary()
+        b = None
+        if self.accept('id', 'to'):
+            b = self.unary()
+        self.expect('id', 'of')
+        base = self.chunk_base()
+        mods = [(t, a, b)]
+        if base[0] == 'chunk' and CHUNK_TYPES.index(t) < CHUNK_TYPES.index(base[1][0][0]):
+            # char < word < item < line: one chunk expression; any other order is a chunk of a chunk
+            return ('chunk', mods + list(base[1]), base[2])
+        return ('chunk', mods, base)
     def variable(self, name):
         s = self.scope
         if name in s['lfuncs'] and name not in s['locals'] and name not in s['args']:
@@ -402,6 +620,11 @@ class Parser:
         if name in s['props']:
             return ('prop', name)
         return ('loc', name)          # Lingo: an identifier that is not declared otherwise is a local variable
+
+def meth_name(e):
+    if e[0] in ('loc', 'par', 'glob', 'prop', 'sym', 'lcall'):
+        return e[1]
+    raise SpecError('method name %r' % (e,))
 
 def split_lines(text):
     lines = []
@@ -467,7 +690,7 @@ def parse_lingo(text):
                 break
             body.append(ln)
         # locals are the identifiers assigned by set / repeat with that are not otherwise declared
-        scope = {'args': set(h['args']), 'globals': set(script['globals']) | set(h['globals']), 'props': set(script['props']),
+        scope = {'keyprops': set(KEY_PROPS), 'args': set(h['args']), 'globals': set(script['globals']) | set(h['globals']), 'props': set(script['props']),
                  'lfuncs': lfuncs, 'locals': set()}
         locs = []
         for bl in body:
@@ -496,7 +719,67 @@ def parse_block(lines, pos, scope, enders):
             return out
         pos[0] += 1
         k0 = ln[0]
-        if k0 == ('id', 'set'):
+        if k0 == ('id', 'set') and len(ln) > 1 and ln[1] == ('id', 'the'):
+            p = Parser(ln[1:], scope)
+            lhs = p.unary()
+            p.expect('op', '=')
+            v = p.expr()
+            if p.peek()[0] != 'eof':
+                raise SpecError('trailing tokens in %r' % (ln,))
+            k = lhs[0]
+            if k == 'the':
+                out.append(('setthe', lhs[1], v))
+            elif k == 'objprop':
+                out.append(('setobjprop', lhs[1], lhs[2], lhs[3], v))
+            elif k == 'menuprop':
+                out.append(('setmenuprop', lhs[1], lhs[2], lhs[3], v))
+            elif k == 'sysprop':
+                out.append(('setsys', lhs[1], v))
+            elif k == 'special':
+                out.append(('setspecial', lhs[1], v))
+            elif k == 'accessor':
+                out.append(('setaccessor', lhs[1], lhs[2], v))
+            else:
+                raise SpecError('cannot assign to %r' % (lhs,))
+        elif k0 == ('id', 'put') and any(t in (('id', 'into'), ('id', 'after'), ('id', 'before')) for t in ln):
+            p = Parser(ln[1:], scope)
+            v = p.expr()
+            mode = p.next()[1]
+            if mode not in PUT_MODE:
+                raise SpecError('put ... %r' % mode)
+            t = p.unary()
+            if p.peek()[0] != 'eof':
+                raise SpecError('trailing tokens in %r' % (ln,))
+            out.append(('put', mode, v, t))
+        elif k0 == ('id', 'delete'):
+            p = Parser(ln[1:], scope)
+            t = p.unary()
+            if p.peek()[0] != 'eof' or t[0] != 'chunk':
+                raise SpecError('delete %r' % (ln,))
+            out.append(('delete', t))
+        elif k0 == ('id', 'hilite'):
+            p = Parser(ln[1:], scope)
+            t = p.unary()
+            if p.peek()[0] != 'eof' or t[0] != 'chunk':
+                raise SpecError('hilite %r' % (ln,))
+            out.append(('hilite', t))
+        elif k0 == ('id', 'tell') and not any(t == ('id', 'to') for t in ln):
+            p = Parser(ln[1:], scope)
+            obj = p.expr()
+            if p.peek()[0] != 'eof':
+                raise SpecError('trailing tokens in %r' % (ln,))
+            A = parse_block(lines, pos, scope, ((('id', 'end'), ('id', 'tell')),))
+            pos[0] += 1
+            out.append(('tell', obj, A))
+        elif k0 == ('id', 'me') and len(ln) > 1 and ln[1] != ('op', '('):
+            p = Parser(ln[1:], scope)
+            args = [p.expr()]
+            while p.accept('op', ','):
+                args.append(p.expr())
+            if p.peek()[0] != 'eof':
+                raise SpecError('trailing tokens in %r' % (ln,))
+            out.append(('mcall', ('me',), meth_name(args[0]), args[1:]))
+        elif k0 == ('id', 'set'):
             p = Parser(ln[1:], scope)
             name = p.expect('id')[1]
             p.expect('op', '=')
@@ -580,6 +863,10 @@ def norm_s(s):
         return (k, s[1], s[2], norm_body(s[3]))
     if k in ('call', 'lcall'):
         return (k, s[1], list(s[2]))
+    if k == 'tell':
+        return (k, s[1], norm_body(s[2]))
+    if k == 'mcall':
+        return (k, s[1], s[2], list(s[3]))
     return s
 
 def parsed_view(p):
@@ -617,7 +904,39 @@ def pp_e(e):
         return '[' + ', '.join(pp_e(a) for a in e[1]) + ']'
     if k == 'plist':
         return '[:]' if not e[1] else '[' + ', '.join('%s: %s' % (pp_e(a), pp_e(b)) for a, b in e[1]) + ']'
+    if k == 'the':
+        return 'the ' + e[1]
+    if k == 'objprop':
+        return 'the %s of %s %s' % (e[3], e[1], pp_id(e[2]))
+    if k == 'menuprop':
+        return 'the %s of menuItem %s of menu %s' % (e[1], pp_id(e[2]), pp_id(e[3]))
+    if k == 'menuname':
+        return 'the name of menu ' + pp_id(e[1])
+    if k == 'menuitems':
+        return 'the number of menuItems of menu ' + pp_id(e[1])
+    if k == 'numberof':
+        return 'the number of ' + e[1]
+    if k in ('sysprop', 'special', 'datetime', 'keyprop'):
+        return 'the ' + e[1]
+    if k == 'lastchunk':
+        return 'the last %s of %s' % (e[1], pp_e(e[2]))
+    if k == 'numchunks':
+        return 'the number of %ss of %s' % (e[1], pp_e(e[2]))
+    if k == 'chunk':
+        t = ''
+        for ty, a, b in e[1]:
+            t += '%s %s%s of ' % (ty, pp_e(a), (' to ' + pp_e(b)) if b is not None else '')
+        return t + pp_e(e[2])
+    if k == 'field':
+        return 'field ' + pp_e(e[1])
+    if k == 'accessor':
+        return 'the %s of %s' % (e[2], pp_e(e[1]))
+    if k == 'mcall':
+        return 'me(' + ', '.join([e[2]] + [pp_e(a) for a in e[3]]) + ')'
     raise SpecError(k)
+
+def pp_id(e):
+    return pp_e(e) if e[0] in ('int', 'str', 'loc', 'par', 'glob', 'prop') else '(' + strip_parens(pp_e(e)) + ')'
 
 def strip_parens(t):
     return t[1:-1] if t.startswith('(') else t
@@ -643,6 +962,28 @@ def pp_body(b, ind):
             s += I + 'repeat with %s = %s to %s\n' % (st[1], pp_e(st[2]), pp_e(st[3])) + pp_body(st[4], ind + 1) + I + 'end repeat\n'
         elif k == 'down':
             s += I + 'repeat with %s = %s down to %s\n' % (st[1], pp_e(st[2]), pp_e(st[3])) + pp_body(st[4], ind + 1) + I + 'end repeat\n'
+        elif k == 'in':
+            s += I + 'repeat with %s in %s\n' % (st[1], pp_e(st[2])) + pp_body(st[3], ind + 1) + I + 'end repeat\n'
+        elif k == 'setthe':
+            s += I + 'set the %s = %s\n' % (st[1], pp_e(st[2]))
+        elif k == 'setobjprop':
+            s += I + 'set %s = %s\n' % (pp_e(('objprop', st[1], st[2], st[3])), pp_e(st[4]))
+        elif k == 'setmenuprop':
+            s += I + 'set %s = %s\n' % (pp_e(('menuprop', st[1], st[2], st[3])), pp_e(st[4]))
+        elif k in ('setsys', 'setspecial'):
+            s += I + 'set the %s = %s\n' % (st[1], pp_e(st[2]))
+        elif k == 'setaccessor':
+            s += I + 'set the %s of %s = %s\n' % (st[2], pp_e(st[1]), pp_e(st[3]))
+        elif k == 'put':
+            s += I + 'put %s %s %s\n' % (pp_e(st[2]), st[1], pp_e(st[3]))
+        elif k == 'delete':
+            s += I + 'delete %s\n' % pp_e(st[1])
+        elif k == 'hilite':
+            s += I + 'hilite %s\n' % pp_e(st[1])
+        elif k == 'tell':
+            s += I + 'tell %s\n' % pp_e(st[1]) + pp_body(st[2], ind + 1) + I + 'end tell\n'
+        elif k == 'mcall':
+            s += I + 'me ' + ', '.join([st[2]] + [pp_e(a) for a in st[3]]) + '\n'
         else:
             raise SpecError(k)
     return s
@@ -737,7 +1078,84 @@ def js_e(e):
         for a, b in e[1]:
             flat += [js_e(a), js_e(b)]
         return 'propList(' + ', '.join(flat) + ')'
+    if k == 'the':
+        owner = JS_THE_OWNER.get(e[1])
+        if owner:
+            return '%s.%s' % (owner, e[1])
+        return '%s.%s' % (JS_PROP_OWNER.get(e[1], 'this'), e[1])
+    if k == 'objprop':
+        obj = {'sprite': 'sprite(%s)', 'cast': 'member(%s)', 'sound': 'sound(%s)', 'field': 'field(%s)'}[e[1]]
+        return (obj % (js_e(e[2]) if e[1] == 'field' else js_id(e[2]))) + '.' + e[3]
+    if k == 'menuprop':
+        return '_menuBar.menu[%s].item[%s].%s' % (js_id(e[3]), js_id(e[2]), e[1])
+    if k == 'menuname':
+        return '_menuBar.menu[%s].name' % js_id(e[1])
+    if k == 'menuitems':
+        return '_menuBar.menu[%s].item.length' % js_id(e[1])
+    if k == 'numberof':
+        return '_menuBar.menu.length' if e[1] == 'menus' else e[1] + '.length'
+    if k == 'sysprop':
+        return e[1] if JS_IN_TELL[0] else '%s.%s' % (SYSTEM_PROPS[SYS_INDEX[e[1]]][1], e[1])
+    if k == 'special':
+        return '%s.%s' % (JS_PROP_OWNER.get(e[1], 'this'), e[1])
+    if k == 'datetime':
+        return "_system.date('%s')" % e[1]
+    if k == 'keyprop':
+        if e[1] in ('date', 'time'):
+            return "_system.date('%s')" % e[1]
+        return '%s.%s' % (JS_KEY_OWNER.get(e[1], '_key'), e[1])
+    if k == 'lastchunk':
+        return '%s.%s["last"]' % (js_e(e[2]), e[1])
+    if k == 'numchunks':
+        return '%s.%s.length' % (js_e(e[2]), e[1])
+    if k == 'chunk':
+        t = js_e(e[2])
+        for ty, a, b in reversed(e[1]):
+            t += '.%s[%s]' % (ty, js_e(a) if b is None else 'range(%s, %s)' % (js_e(a), js_e(b)))
+        return t
+    if k == 'field':
+        return 'field(%s)' % js_e(e[1])
+    if k == 'accessor':
+        return '%s.%s' % (js_e(e[1]), e[2])
+    if k == 'mcall':
+        return 'this.%s(%s)' % (e[2], ', '.join(js_e(a) for a in e[3]))
     raise SpecError(k)
+
+JS_IN_TELL = [False]
+JS_THE_OWNER = {'updateMovieEnabled': '_movie', 'frameLabel': '_movie'}
+JS_KEY_OWNER = {'updateMovieEnabled': '_movie', 'frameLabel': '_movie', 'labelList': '_movie', 'lastClick': '_player',
+                'lastEvent': '_player', 'lastKey': '_player', 'lastRoll': '_player', 'machineType': '_player', 'mouseCast': '_mouse',
+                'mouseChar': '_mouse', 'mouseDown': '_mouse', 'mouseH': '_mouse', 'mouseItem': '_mouse', 'mouseLine': '_mouse',
+                'mouseUp': '_mouse', 'mouseV': '_mouse', 'mouseWord': '_mouse', 'doubleClick': '_mouse', 'clickOn': '_mouse',
+                'movie': '_movie', 'pathName': '_movie', 'movieFileSize': '_movie', 'movieFileFreeSize': '_movie',
+                'pauseState': '_movie', 'result': '_player', 'selection': '_movie', 'stageBottom': '_movie', 'stageLeft': '_movie',
+                'stageRight': '_movie', 'stageTop': '_movie', 'ticks': '_system', 'maxinteger': '_system', 'multiSound': '_system'}
+KEY_PROPS = sorted((set(JS_KEY_OWNER) - {'updateMovieEnabled', 'frameLabel'}) | {'date', 'time', 'stillDown', 'key', 'keyCode',
+                                                                                 'shiftDown', 'commandDown', 'optionDown', 'controlDown'})
+
+def js_id(e):
+    """object ids are written raw (the translator prints the operand's name)"""
+    if e[0] == 'int':
+        return str(e[1])
+    if e[0] in ('loc', 'par', 'glob', 'prop'):
+        return e[1]
+    if e[0] == 'str':
+        return '"%s"' % e[1]
+    raise SpecError('object id %r' % (e,))
+
+def js_target(t):
+    if t[0] == 'loc':
+        return t[1]
+    if t[0] == 'field':
+        return 'field(%s).text' % js_e(t[1])
+    if t[0] == 'glob':
+        return '_global.' + t[1]
+    if t[0] == 'chunk':
+        base = js_target(t[2])
+        for ty, a, b in reversed(t[1]):
+            base += '.%s[%s]' % (ty, js_e(a) if b is None else 'range(%s, %s)' % (js_e(a), js_e(b)))
+        return base
+    raise SpecError('target %r' % (t,))
 
 def js_call(name, args, in_tell=False):
     """the translator's fixed renamings of commands"""
@@ -786,6 +1204,48 @@ def js_body(b, ind):
             cmp_ = '<=' if k == 'with' else '>='
             s += I + 'for(%s = %s; %s %s %s; %s%s) {\n' % (st[1], js_e(st[2]), st[1], cmp_, js_e(st[3]), st[1], '++' if k == 'with' else '--') \
                 + js_body(st[4], ind + 1) + I + '}\n'
+        elif k == 'in':
+            s += I + 'for(%s of %s) {\n' % (st[1], js_e(st[2])) + js_body(st[3], ind + 1) + I + '}\n'
+        elif k == 'setthe':
+            s += I + '%s = %s;\n' % (js_e(('special', st[1])), js_e(st[2]))
+        elif k == 'setobjprop':
+            s += I + '%s = %s;\n' % (js_e(('objprop', st[1], st[2], st[3])), js_e(st[4]))
+        elif k == 'setmenuprop':
+            s += I + '%s = %s;\n' % (js_e(('menuprop', st[1], st[2], st[3])), js_e(st[4]))
+        elif k == 'setsys':
+            s += I + '%s = %s;\n' % (js_e(('sysprop', st[1])), js_e(st[2]))
+        elif k == 'setspecial':
+            s += I + '%s = %s;\n' % (js_e(('special', st[1])), js_e(st[2]))
+        elif k == 'setaccessor':
+            s += I + '%s.%s = %s;\n' % (js_e(st[1]), st[2], js_e(st[3]))
+        elif k == 'put':
+            t = js_target(st[3])
+            v = js_e(st[2])
+            if st[1] == 'after':
+                s += I + '%s = new LingoString(%s + %s);\n' % (t, t, v)
+            elif st[1] == 'before':
+                s += I + '%s = new LingoString(%s + %s);\n' % (t, v, t)
+            else:
+                s += I + '%s = %s;\n' % (t, v)
+        elif k == 'delete':
+            s += I + 'delete(%s);\n' % js_e(st[1])
+        elif k == 'hilite':
+            s += I + 'hilite(%s);\n' % js_e(st[1])
+        elif k == 'tell':
+            JS_IN_TELL[0] = True
+            try:
+                inner = ''
+                for x in st[2]:
+                    if x[0] == 'call':
+                        inner += '    ' * (ind + 1) + js_call(x[1], x[2], True) + ';\n'
+                    else:
+                        inner += js_body([x], ind + 1)
+            finally:
+                JS_IN_TELL[0] = False
+            t = js_e(st[1])
+            s += I + 'with %s {\n' % (t if t.startswith('(') else '(%s)' % t) + inner + I + '}\n'
+        elif k == 'mcall':
+            s += I + 'this.%s(%s);\n' % (st[2], ', '.join(js_e(a) for a in st[3]))
         else:
             raise SpecError(k)
     return s
@@ -825,7 +1285,7 @@ def pp_js_class(script):
         s += 'function %s(methodName, ...args) {\n    return factoryCall(\'%s\', methodName, args);\n}\n' % (fac, fac)
     else:
         for h in script['handlers']:
-            if h['name'] not in ('birth'):
+            if h['name'] not in ('birth', 'new'):
                 s += 'function %s(obj, ...args) {\n    return obj.%s(...args);\n}\n' % (h['name'], h['name'])
     return s
 
